@@ -153,8 +153,16 @@ func genTask(r *u.Rng, name string, multi bool) tspec {
 // request), 1 = every task is covered by the node-level gate (single device),
 // 2 = anything (may include multi-device gpu-memory tasks and mixes).
 func genJob(r *u.Rng, name, queue string, class int) jspec {
+	return genJobMin(r, name, queue, class, 1)
+}
+
+// genJobMin: as genJob with at least minTasks tasks.
+func genJobMin(r *u.Rng, name, queue string, class int, minTasks int) jspec {
 	j := jspec{Name: name, Queue: queue, Preemptible: r.Bool()}
 	n := u.Pick(r, []int{1, 1, 1, 2, 2, 3})
+	if n < minTasks {
+		n = minTasks
+	}
 	for i := 0; i < n; i++ {
 		var t tspec
 		for {
